@@ -744,7 +744,8 @@ class Continuous:
         start = max(start if fraction == 0 else start + self.dt - fraction, self.start)
 
         start_idx = to_index(start)
-        stop_idx = to_index(stop)
+        # A stop before the first sample must not wrap around as a negative index
+        stop_idx = max(to_index(stop), 0)
         return self.__class__(self.data[start_idx:stop_idx], start, self.dt)
 
     def downsampled_by(self, factor, reduce):
